@@ -1,5 +1,6 @@
 import Driver.Util
 import TurnModel.Model.Txn
+import TurnModel.Model.ClientConn
 namespace Drv
 open Turn.Txn
 
@@ -28,6 +29,66 @@ def txnStep (s : St) (toks : List String) : Option (St × String) :=
   | ["tadv", dt] => let r := advanceTo 100000 s (s.now + natOf dt); some (r.1, showTOuts r.2)
   | ["tclose"] => let r := step s .close; some (r.1, showTOuts r.2)
   | ["tsize"] => some (s, toString s.trs.length)
+  | _ => none
+
+end Drv
+
+namespace Drv
+open Turn.Cli Turn.Srv
+
+def cAddr (s : String) : Addr :=
+  match s.splitOn "." with
+  | [f, n, p] => ⟨⟨f == "6", natOf n⟩, natOf p⟩
+  | _ => ⟨⟨false, 0⟩, 0⟩
+
+def cShowAddr (a : Addr) : String := (if a.ip.v6 then "6." else "4.") ++ toString a.ip.n ++ "." ++ toString a.port
+
+def parseRx (s : String) : List Rx :=
+  if s == "-" then [] else (s.splitOn ",").map (fun t =>
+    if t == "ok" then .ok else if t == "silent" then .silent else .code (natOf (t.drop 1).toString))
+
+def showCOut : Turn.Cli.Out → String
+  | .createPerm ps => "cp " ++ String.intercalate "," (ps.map cShowAddr)
+  | .chanBind n p => s!"cb {n} {cShowAddr p}"
+  | .sendInd p d => s!"si {cShowAddr p} {toHex d}"
+  | .chanData n d => s!"cd {n} {toHex d}"
+  | .refresh l => s!"rf {l}"
+  | .wrote n => s!"w {n}"
+  | .writeErr k => s!"werr {k}"
+  | .read f d => s!"rd {cShowAddr f} {toHex d}"
+  | .readErr k => s!"rderr {k}"
+  | .inboundErr k => s!"inerr {k}"
+  | .unhandled => "unhandled"
+
+def showCOuts (os : List Turn.Cli.Out) : String :=
+  if os.isEmpty then "-" else String.intercalate " | " ((os.map showCOut).foldl (fun acc x => insertSortedS x acc) [])
+
+def kvc (toks : List String) (key : String) : String :=
+  match toks.find? (fun t => t.startsWith (key ++ "=")) with
+  | some t => (t.drop (key.length + 1)).toString
+  | none => "-"
+
+/-- H5 line protocol: the client's relayed socket against scripted server reactions -/
+def cliStep (s : Turn.Cli.State) (toks : List String) : Option (Turn.Cli.State × String) :=
+  let run (op : Turn.Cli.Op) := let r := Turn.Cli.step s op; some (r.1, showCOuts r.2)
+  match toks with
+  | ["cnew"] => some (Turn.Cli.init, "ok")
+  | "cwrite" :: a :: d :: rest => run (.write (cAddr a) (parseHex d) (parseRx (kvc rest "perm")) (parseRx (kvc rest "bind")))
+  | ["cin", "dind", a, d] => run (.inbound (.dataInd (cAddr a) (parseHex d)))
+  | ["cin", "cdat", raw] => run (.inbound (.chanData (parseHex raw)))
+  | ["cin", "req"] => run (.inbound .stunRequest)
+  | ["cin", "bad"] => run (.inbound .stunBad)
+  | ["cin", "other"] => run (.inbound .stunOther)
+  | ["cin", "garbage-server"] => run (.inbound .garbageFromServer)
+  | ["cin", "garbage-other"] => run (.inbound .garbageFromOther)
+  | ["cnet", "dind", a, d] => some ((Turn.Cli.step s (.inbound (.dataInd (cAddr a) (parseHex d)))).1, "-")
+  | ["cnet", "cdat", raw] => some ((Turn.Cli.step s (.inbound (.chanData (parseHex raw)))).1, "-")
+  | "cnet" :: _ => some (s, "-")
+  | ["cin", "catt", _] => some (s, "-")     -- a ConnectionAttempt indication is queued or dropped, never blocks
+  | ["cread"] => run .read
+  | ["cadv", dt] => run (.adv (natOf dt))
+  | ["cclose"] => run .close
+  | ["cqlen"] => some (s, toString s.queue.length)
   | _ => none
 
 end Drv
